@@ -70,6 +70,12 @@ func (w *webhookExecutorEtag) adjustResponse(
 		if !cacheEntryExists {
 			return nil, fmt.Errorf("cannot find cached response for cache key: %s", cacheKey)
 		}
+		if cacheEntry.Etag != request.Header.Get(headerIfNoneMatch) {
+			// A concurrent call about the same object (e.g. another parent
+			// revision of a rolling update) replaced the entry while this
+			// request was in flight; its body is not the one the server means.
+			return nil, fmt.Errorf("cached response for cache key %s no longer belongs to ETag %s", cacheKey, request.Header.Get(headerIfNoneMatch))
+		}
 		return cacheEntry.Response, nil
 	}
 	eTag := response.Header.Get(headerETag)
